@@ -110,6 +110,8 @@ def gen_spec(rng, thorough=False, force=None):
 		if rng.random() < force.get('pcostfn', .12):
 			nodes[str(l)]['pfn'] = [rng.choice(['0', '1']), rng.choice(['0', '-1', '-3']), rng.choice(['0', '1/2', '1'])]
 	spec = {'kind': kind, 'labels': labels, 'edges': edges, 'nodes': nodes, 'T': T}
+	if rng.random() < force.get('pprodlevel', .15) and not any(nd['policy']['t'] == 'EBS' for nd in nodes.values()):
+		spec['attr_level'] = 'product'          # attributes carried by an explicit product per node instead of the node
 	if force.get('prandom'):
 		# random inputs: Poisson / discrete-uniform / rounded-normal demand sources, Markov disruption processes, and an explicit seed (0 is a legal seed)
 		for nd in nodes.values():
@@ -137,6 +139,7 @@ def spec_flags(spec):
 		fl.append('has-node-index-0')
 	if 'seed' in spec:
 		fl.append('rand_seed=%s' % spec['seed'])
+	fl.append('attributes-at:' + spec.get('attr_level', 'node'))
 	for l, nd in spec['nodes'].items():
 		fl.append('policy:' + nd['policy']['t'])
 		fl.append('slt=%d' % nd['slt']); fl.append('olt=%d' % nd['olt'])
@@ -172,6 +175,7 @@ def build_py(spec, relabel=None):
 	rl = (lambda l: relabel[l]) if relabel else (lambda l: l)
 	net = SupplyChainNetwork()
 	objs = {}
+	prods = {}
 	for l in spec['labels']:
 		nd = spec['nodes'][str(l)]
 		kw = dict(supply_type='U' if nd['ext_supply'] else None,
@@ -180,16 +184,31 @@ def build_py(spec, relabel=None):
 				  in_transit_holding_cost=num(nd['ht']), revenue=num(nd['rev']),
 				  initial_inventory_level=num(nd['initIL']), initial_orders=num(nd['initOrders']),
 				  initial_shipments=num(nd['initShipments']), order_capacity=num(nd['cap']))
+		prodlevel = spec.get('attr_level') == 'product'
+		if prodlevel:
+			# the same single-product network with an explicit product per node that carries the attributes (lead times, costs, initial
+			# quantities, policy): attributes may be set at node, product or (node, product) level
+			from stockpyl.supply_chain_product import SupplyChainProduct
+			pkw = {k: kw.pop(k) for k in ('shipment_lead_time', 'order_lead_time', 'local_holding_cost', 'stockout_cost', 'in_transit_holding_cost',
+										  'revenue', 'initial_inventory_level', 'initial_orders', 'initial_shipments')}
 		n = SupplyChainNode(rl(l), **kw)
+		if prodlevel:
+			prod = SupplyChainProduct(1000 + l, **pkw)
+			n.add_product(prod)
+			prods[l] = prod
 		pol = nd['policy']
 		if pol['t'] in ('BS', 'EBS'):
-			n.inventory_policy = Policy(type=pol['t'], base_stock_level=num(pol['a']), node=n)
+			po_ = Policy(type=pol['t'], base_stock_level=num(pol['a']), node=n)
 		elif pol['t'] == 'sS':
-			n.inventory_policy = Policy(type='sS', reorder_point=num(pol['a']), order_up_to_level=num(pol['b']), node=n)
+			po_ = Policy(type='sS', reorder_point=num(pol['a']), order_up_to_level=num(pol['b']), node=n)
 		elif pol['t'] == 'rQ':
-			n.inventory_policy = Policy(type='rQ', reorder_point=num(pol['a']), order_quantity=num(pol['b']), node=n)
+			po_ = Policy(type='rQ', reorder_point=num(pol['a']), order_quantity=num(pol['b']), node=n)
 		else:
-			n.inventory_policy = Policy(type='FQ', order_quantity=num(pol['a']), node=n)
+			po_ = Policy(type='FQ', order_quantity=num(pol['a']), node=n)
+		if prodlevel:
+			po_.product = prods[l]; prods[l].inventory_policy = po_
+		else:
+			n.inventory_policy = po_
 		if nd['demand'] is not None:
 			n.demand_source = DemandSource(type='D', demand_list=[num(x) for x in nd['demand']])
 			rd = nd.get('rdemand')
@@ -211,7 +230,18 @@ def build_py(spec, relabel=None):
 		net.add_node(n)
 	for a, b in spec['edges']:
 		net.add_edge(rl(a), rl(b))
+	if prods:
+		for a, b in spec['edges']:
+			prods[b].set_bill_of_materials(raw_material=prods[a].index, num_needed=1)
 	return net, objs
+
+
+def attr_holder(spec, node, attr=None):
+	"""The object that carries the attributes of `node` in this spec: the node itself, or its explicit product (attr_level 'product').
+	The order capacity, the disruption process and cost functions always stay on the node."""
+	if spec.get('attr_level') == 'product' and attr not in ('order_capacity',):
+		return node.products[0]
+	return node
 
 
 def layout(spec):
